@@ -327,6 +327,65 @@ def inst_where_out(rank, owndata):
                     unit="_elemwise_handle_where", api_replay=api)
 
 
+def inst_assign_int_list(list_axis_chunks, positions):
+    """x[i, [p0, p1, ...]] = v with v of shape (len(list),): an integer before an integer-list key.  The list axis has a
+    concrete chunking and concrete positions (the planner works on them with NumPy array code); the integer, the other axis'
+    chunk sizes and the data are symbolic"""
+    def body(E):
+        w = W(E)
+        Coll._n = 0
+        log = BoundsLog()
+        rows = tuple(E.int(f"c0_{i}", 1) for i in range(2))
+        chunks = (rows, tuple(list_axis_chunks))
+        X = leaf("X", (sum(rows), sum(list_axis_chunks)), log=log)
+        i0 = E.int("i0")
+        E.assume(int_in_range(i0, X.shape[0]))
+        V = leaf("V", (len(positions),), log=log)
+        x = Coll("x", X, chunks)
+        val = Coll("v", V, ((len(positions),),))
+        raw = (i0, np.array(positions))
+        dsk = dict(w.fn(SI, "setitem_array_expr")("out", x, raw, val))
+        dsk.update(x.__dask_graph__())
+        dsk.update(val.__dask_graph__())
+        layer_keys_ok(E, dsk, "out", x.numblocks)
+        whole, _r = run_blocks(E, dsk, "out", chunks, kernels=dict(setitem=_real_setitem(E, w)))
+        for lab, cond in log.items:
+            E.ensure(lab, cond)
+        n0 = X.shape[0]
+        row = z3.If(_z(i0) < 0, _z(i0) + _z(n0), _z(i0))
+
+        def at(pos):
+            out = X._at(pos)
+            for j, p in enumerate(positions):  # later entries win, as in NumPy
+                out = z3.If(z3.And(pos[0] == row, pos[1] == p), V._at((z3.IntVal(j),)), out)
+            return out
+
+        same_array(E, whole, SArr(X.shape, at), label="assignment")
+
+    def api(values):
+        import dask_array as da
+
+        rows = tuple(values[f"c0_{i}"] for i in range(2))
+        if sum(rows) > 2000:
+            return dict(ok=False, detail="too large for an API replay; unit-level replay stands")
+        shape = (sum(rows), sum(list_axis_chunks))
+        data = np.arange(int(np.prod(shape)), dtype="f8").reshape(shape)
+        v = -(np.arange(len(positions), dtype="f8") + 1)
+        want = data.copy()
+        want[values["i0"], list(positions)] = v
+        d = da.from_array(data.copy(), chunks=(rows, tuple(list_axis_chunks)))
+        try:
+            d[values["i0"], list(positions)] = v
+            got = d.compute(scheduler="sync")
+        except Exception as ex:
+            return dict(ok=False, detail=f"numpy assigns, dask_array raises {type(ex).__name__}: {ex}"[:300])
+        return dict(ok=bool(np.array_equal(got, want)), detail=f"rows={rows} i={values['i0']} positions={positions}")
+
+    return Instance(f"setitem[int,list{list(positions)} over chunks {tuple(list_axis_chunks)}]", body,
+                    dict(list_axis_chunks=list_axis_chunks, positions=positions), unit="setitem_array_expr (integer + integer-list key)",
+                    api_replay=api)
+
+
 IDENTITY_SITE = "Array:identity-like-operation-returns-self"
 
 
@@ -398,7 +457,8 @@ def _program_instances(tier):
 
 def instances(tier):
     q = tier == "quick"
-    out = _program_instances(tier) + [inst_derived_keep_value()]
+    out = _program_instances(tier) + [inst_derived_keep_value(), inst_assign_int_list((3, 3), (1, 2, 4)),
+                                      inst_assign_int_list((2, 2), (3, 0))]
     steps = [None, 1, 2, -1, -2] if q else [None, 1, 2, 3, -1, -2, -3]
     for m in ([1, 2, 3] if q else [1, 2, 3, 4]):
         for st in steps:
